@@ -112,11 +112,16 @@ fn bytes_of(v: &Value) -> Vec<u8> {
     }
 }
 
-fn compress(kind: &str, input: &[u8], chunk: usize, frames: usize, level: i32) -> std::io::Result<Vec<u8>> {
+fn compress(kind: &str, input: &[u8], chunk: usize, frames: usize, level: i32, wlog: Option<u32>) -> std::io::Result<Vec<u8>> {
     let one = |part: &[u8]| -> std::io::Result<Vec<u8>> {
         let pieces: Vec<&[u8]> = if chunk == 0 { vec![part] } else { part.chunks(chunk).collect() };
         if kind.starts_with("zstd") {
             let mut e = zstd::stream::write::Encoder::new(Vec::new(), level)?;
+            if let Some(w) = wlog {
+                // a frame declaring a window of 2^w bytes (as `zstd --long=w` writes):
+                // beyond 2^27 a decoder with default limits refuses it
+                e.window_log(w)?;
+            }
             for p in pieces {
                 e.write_all(p)?;
                 if chunk != 0 {
@@ -165,7 +170,8 @@ fn open(ep: &Value) -> anyhow::Result<(Box<dyn DynL>, Option<tempfile::NamedTemp
     let frames = ep.get("frames").and_then(|v| v.as_u64()).unwrap_or(1) as usize;
     let level = ep.get("level").and_then(|v| v.as_i64()).unwrap_or(3) as i32;
     let mut payload = if kind.starts_with("zstd") || kind.starts_with("gzip") {
-        compress(kind, &input, chunk, frames, level)?
+        let wlog = ep.get("corrupt").and_then(|c| c.get("wlog")).and_then(|v| v.as_u64()).map(|w| w as u32);
+        compress(kind, &input, chunk, frames, level, wlog)?
     } else {
         input
     };
